@@ -62,6 +62,9 @@ def scenario(rng, kind, tier):
         if kind == 'gcacgmm':
             sc['opts']['covariance_type'] = ['spherical', 'diagonal', 'full'][int(rng.integers(3))]
         sc['E'] = int(rng.integers(2, 5))
+    if not integ and int(rng.integers(4)) == 0:
+        # the same tying written with non-negative axis indices (the docstring's "positive counterpart")
+        sc['wca_pos'] = True
     if sc.get('aligner'):
         sc['wca'] = [(-3,), (-3, -1), -3][int(rng.integers(3))]
         sc['wca_type'] = 'int' if isinstance(sc['wca'], int) else 'tuple'
@@ -242,9 +245,12 @@ def wca_arg(case):
     """weight_constant_axis exactly as the scenario specifies it (JSON does not keep tuple vs list)"""
     wca = case['wca']
     t = case.get('wca_type', 'int' if isinstance(wca, int) else 'tuple')
+    R = len(case['L']) + 2
+    pos = (lambda a: int(a) % R) if case.get('wca_pos') and case.get('kind') not in ('gcacgmm', 'vmfcacgmm') and not case.get('aligner') \
+        else (lambda a: int(a))
     if t == 'int':
-        return int(wca)
-    return list(wca) if t == 'list' else tuple(wca)
+        return pos(wca)
+    return [pos(a) for a in wca] if t == 'list' else tuple(pos(a) for a in wca)
 
 
 def model_case(case, want=('predict', 'fit_predict', 'estep')):
@@ -269,21 +275,24 @@ def model_case(case, want=('predict', 'fit_predict', 'estep')):
     if case.get('aligner'):
         opts['inline_permutation_aligner'] = _aligner_for(L[0], rng)
     fp = f'model={kind};wca={wca};regime={case["regime"]};init={case["init"]}{"+tiny" if case.get("tiny_class") else ""};opts={ {k: v for k, v in case["opts"].items()} };' \
-         f'sam={bool(case.get("sam"))};sal={case["saliency"]};aligner={bool(case.get("aligner"))};lead={len(L)}'
+         f'sam={bool(case.get("sam"))};sal={case["saliency"]};aligner={bool(case.get("aligner"))};lead={len(L)};pos={bool(case.get("wca_pos"))}'
     recs = []
     events = []
 
+    last = {}
+
     def cb(event, f):
         if event == 'estep':
-            events.append((f['model'], np.array(f['affiliation'], copy=True)))
-    if 'estep' in want:
-        _verif.register(cb)
+            last['aff'] = np.array(f['affiliation'], copy=True)
+            if 'estep' in want:
+                events.append((f['model'], last['aff']))
+    _verif.register(cb)
     try:
         model, exc = call(ml.fit, kind, data, init, case['iterations'], opts,
                           trainer=ml.trainer_for(kind, **case.get('trainer_kw', {})))
     finally:
         _verif.unregister(cb)
-    ctx = dict(model=model, data=data, init=init, opts=opts, sam=sam, exc=exc, fp=fp)
+    ctx = dict(model=model, data=data, init=init, opts=opts, sam=sam, exc=exc, fp=fp, last_aff=last.get('aff'))
     key = f'model:{case["seed"]}'
     wrec = wca if not isinstance(wca, tuple) else list(wca)
     if model is None:
@@ -387,6 +396,13 @@ def domain_case(case):
                degenerate=case['regime'] == 'degenerate' or case['init'] == 'hard', zero_resultant=False,
                exc=ctx['exc'], exc_explicit=ctx['exc'] in EXPLICIT, fields=[], fp=ctx['fp'] + ';call=fit;domain',
                key=f'dom:{case["seed"]}')
+    rec['rowsum'] = dict(shape=[], data=[])
+    if ctx['model'] is not None:
+        g = ctx.get('last_aff')
+        if g is None and np.ndim(ctx['init']) >= 2:
+            g = np.broadcast_to(ctx['init'], (*L, K, N))
+        if g is not None and np.shape(g) == (*L, K, N):
+            rec['rowsum'] = ml.flat(np.sum(np.asarray(g, dtype=float), axis=-2))
     if ctx['model'] is not None:
         rec['fields'] = raw_fields(kind, ctx['model'])
         if 'cacg' in getattr(ctx['model'], '__dataclass_fields__', {}):
